@@ -27,8 +27,8 @@ claim("C16",
 claim("C18",
       "Decides that every internal stack acquire (script/function/trap/command-string/interactive frames, trap-delivery block, env "
       "scopes, command ScopeGuard) has its release on every normal path of every caller in the current source, that wrapper halves "
-      "push/pop atomically, that raw pushes and leak primitives occur only at reviewed sites, and that OpenFile holds descriptors only "
-      "in RAII owners. Necessary condition for 'no leak per command' on all paths including error returns.",
+      "push/pop atomically, that raw pushes and leak primitives occur only at reviewed sites, that OpenFile holds descriptors only "
+      "in RAII owners, and that descriptors a command allocates in the persistent table have a release (coproc has none: known finding). Necessary condition for 'no leak per command' on all paths including error returns.",
       "Trusted: rustc MIR; cancellation of a future is not a normal exit; Arc/Drop semantics of std. Not decided: unreaped children, "
       "equality of the k-th iteration with the first.",
       ST + "PAIR (acquire/release post-dominance on MIR CFG) + who-may-call + type inspection", "DESIGN.md §3 C18")
